@@ -126,8 +126,24 @@ def classify_body(loc, kind, atom, seen):
     return "placed", "other", desc
 
 
+JSON_OF = {"s": "tok", "i7": 7, "i0": 0, "f15": 1.5, "fint": 2, "T": True, "F": False, "ea": "a", "eb": "b", "e1": 1, "e2": 2, "d": "2020-01-02",
+           "dt": "2020-01-02T03:04:05+00:00", "u": str(UID), "k": "k", "as": "x", "ai": 3, "N": None, "l0": [], "m": {"a": "x"}}
+
+
+def classify_json(kind, atom, seen):
+    try:
+        val = json.loads(seen["content"].decode())
+    except ValueError:
+        return ("notsent", "-", "") if not seen["content"] else ("placed", "other", seen["content"][:60].decode("latin-1"))
+    exp = {"list": ["x", "y"], "listint": [7, 0], "listenum": ["a", "b"]}[kind] if atom == "l2" else JSON_OF[atom]
+    same = val == exp and type(val) is type(exp)
+    return "placed", ("json" if same else "other"), json.dumps(val)[:80]
+
+
 def classify(loc, kind, atom, seen):
     """-> (t, f, text)"""
+    if loc == "json":
+        return classify_json(kind, atom, seen)
     if loc in ("form", "multipart"):
         return classify_body(loc, kind, atom, seen)
     if loc == "path":
@@ -177,7 +193,8 @@ for case in job["cases"]:
         fn = getattr(mod, case["variant"])
         ns = vars(models) | vars(types_mod) | vars(client_mod) | {"datetime": datetime, "UUID": uuid.UUID}
         body_cls = getattr(models, case["body_class"]) if case.get("body_class") else None
-        hint = typing.get_type_hints(body_cls, ns)["p"] if body_cls is not None else typing.get_type_hints(fn, ns)["p"]
+        is_json_body = case["loc"] == "json"
+        hint = typing.get_type_hints(body_cls, ns)["p"] if body_cls is not None else typing.get_type_hints(fn, ns)["body" if is_json_body else "p"]
         obs["hint"] = str(hint).replace("typing.", "").replace(pkg + ".", "")
         seen = []
 
@@ -197,6 +214,8 @@ for case in job["cases"]:
             obs["admitted"] = admits(val, hint)
             if body_cls is not None:
                 kwargs["body"] = body_cls(p=val, z="zz")
+            elif is_json_body:
+                kwargs["body"] = val
             else:
                 kwargs["p"] = val
         try:
